@@ -3,8 +3,25 @@
    checker run on the plans the Go code actually produced (any overfetch, any tie-breaking of its unstable sort). *)
 From Coq Require Import NArith ZArith List Permutation.
 Import ListNotations.
-From PM Require Import Model.Varint Model.Directory Model.Extract Model.ExtractCmd Proofs.Extract.
+From PM Require Import Model.Varint Model.Directory Model.Extract Model.ExtractCmd Proofs.Extract Proofs.Relevant Proofs.Reencode.
 Open Scope N_scope.
+
+(* the restriction is exact: a tile id is addressed by the kept tile entries, with some offset and length, exactly when the source
+   directory addresses it with that offset and length AND the id is in the relevance bitmap (zoom range x region); so no tile outside
+   the requested range appears and every source tile inside it is present, runs trimmed to the bitmap *)
+Theorem C07_restriction_exact : forall b last dir id o n,
+  addressed (fst (relevant b last dir)) id o n <-> (addressed dir id o n /\ bm_mem b id = true).
+Proof. exact relevant_tiles_spec. Qed.
+
+(* byte-identical content: after copying the source ranges listed by the re-encoding (one request per range; merged requests write the
+   same bytes by C07_plan_exact), every re-encoded entry keeps tile id, length and run length and points at the bytes its source entry
+   pointed at; shared contents are copied once *)
+Theorem C07_content_preserved : forall (S D0:mem) dir out ranges total addr cont,
+  (forall e1 e2, In e1 dir -> In e2 dir -> off e1 = off e2 -> len e1 = len e2) ->
+  reencode dir = (out, ranges, total, addr, cont) ->
+  Forall2 (fun e e' => tid e' = tid e /\ len e' = len e /\ run e' = run e /\
+                       forall k, k < len e -> exec_all S (map trivial_plan ranges) D0 (off e' + k) = S (off e + k) /\ off e' + len e <= total) dir out.
+Proof. intros S D0 dir out ranges total addr cont Hs H. eapply reencode_content; eassumption. Qed.
 
 (* every overfetch setting writes the same bytes: whatever plans cover the range list (merged or not), executing them
    writes exactly what one request per range writes *)
@@ -40,5 +57,7 @@ Example C07_ex_plan_ok : plan_ok [mkSR 0 0 10; mkSR 30 10 10; mkSR 45 20 10; mkS
   (merge_with_budget [mkSR 0 0 10; mkSR 30 10 10; mkSR 45 20 10; mkSR 100 30 5] 20) 20 = true.
 Proof. vm_compute. reflexivity. Qed.
 
+Print Assumptions C07_restriction_exact.
+Print Assumptions C07_content_preserved.
 Print Assumptions C07_plan_exact.
 Print Assumptions C07_schedule_independent.
